@@ -551,7 +551,7 @@ func (e Element) Write(w io.Writer, indent int) error {
 		closeAngleBracketIndent = indent
 	}
 	if e.hasNonWhitespaceChildren() {
-		if e.IndentChildren {
+		if e.indentChildren() {
 			if err := writeIndent(w, closeAngleBracketIndent, ">\n"); err != nil {
 				return err
 			}
@@ -652,7 +652,26 @@ func isBlockNode(node Node) bool {
 	case ForExpression:
 		return true
 	case Element:
-		return n.IsBlockElement() || n.IndentChildren
+		return n.IsBlockElement() || n.indentChildren()
+	}
+	return false
+}
+
+// indentChildren reports whether the children are written on their own lines: when they span
+// lines in the source, or when one of them always ends its line when it is written (comments,
+// component calls, children, control flow, script and style elements), in which case keeping the
+// element on one line would only last until the next formatting pass.
+func (e Element) indentChildren() bool {
+	if e.IndentChildren {
+		return true
+	}
+	for _, n := range e.Children {
+		if _, isWhitespace := n.(Whitespace); isWhitespace {
+			continue
+		}
+		if _, isWhitespaceTrailer := n.(WhitespaceTrailer); !isWhitespaceTrailer {
+			return true
+		}
 	}
 	return false
 }
